@@ -153,7 +153,12 @@ def s1_exactly_once(prog):
             if not any(is_param(x, hT) for x in g):
                 once('S4', 'claims-of-wrong-task', acc[0]['ln'], 'claims are recorded for a different task type than the one being run')
             m_ = S(acc[0]['vals'][1]) if len(acc[0]['vals']) > 1 else None
-            if m_ != P.get('borrowed_archetypes') or len(t['vals']) < 3 or S(t['vals'][2]) != m_:
+            # recorded through `&mut map` (the same map goes on) or by value (the returned map goes on)
+            cal = prog.fns.get((acc[0]['f'].get('res') or acc[0]['f']).get('dp'))
+            out_ = (cal.d.get('output') if cal is not None else None) or {}
+            by_value = not (out_.get('k') == 'tuple' and not out_.get('e')) and bool(out_)
+            fwd = acc[0]['ret'] if by_value else m_
+            if m_ != P.get('borrowed_archetypes') or len(t['vals']) < 3 or S(t['vals'][2]) != fwd:
                 once('S4', 'claims-map-not-forwarded', t['ln'], 'the map handed to the rest of the stage is not the one the task\'s claims were recorded in')
         mrg = [e for e in p.calls(lambda e: e['name'] in ('merge_unchecked', 'try_merge') and 'claim' in e['path']) if e['i'] < t['i']]
         good = None
@@ -266,7 +271,11 @@ def s2_flag_iff_ran(prog):
         elif good_tm is None:
             once('S3', 'resource-check-operands', tms[0]['ln'], 'resource admission must merge the running claims with this task\'s resource claims')
         qas = [e for e in p.calls(lambda e: e['name'] == 'query_archetype_identifiers')]
-        good_q = [e for e in qas if p.lookup(e['ret']) is True and any(pathsem.strip_refs(v) == ('p', p_map, 'borrowed_archetypes') for v in e['vals'])]
+        def admitted(e):
+            # `true`, or `Ok(map to go on with)`
+            return p.lookup(e['ret']) is True or p.lookup(('discr', e['ret'])) == 0 and (e['f'].get('res') or e['f']).get('dp') in prog.fns and \
+                is_adt(prog.fns[(e['f'].get('res') or e['f'])['dp']].d.get('output') or {}, 'core::result::Result')
+        good_q = [e for e in qas if admitted(e) and any(pathsem.strip_refs(v) == ('p', p_map, 'borrowed_archetypes') for v in e['vals'])]
         if not qas:
             once('S3', 'no-archetype-check', None, 'add-on admission does not check archetype claims')
         elif not good_q:
@@ -279,7 +288,11 @@ def s2_flag_iff_ran(prog):
             merged = ('f', ('down', good_tm['ret'], 'Some', 1), 0, 'core::option::Option')
             if not any(pathsem.strip_refs(v) == merged for v in tails[0]['vals']):
                 once('S3', 'merged-resources-not-forwarded', tails[0]['ln'], 'the forked path does not carry the merged resource claims: later add-ons would not see this task\'s resources')
-        if tails and not any(pathsem.strip_refs(v) == ('p', p_map, 'borrowed_archetypes') for v in tails[0]['vals']):
+        upd = [('p', p_map, 'borrowed_archetypes')]
+        for e in good_q:
+            if p.lookup(e['ret']) is not True:
+                upd = [('f', ('down', e['ret'], 'Ok', 0), 0, 'core::result::Result')]      # the map the admission returned
+        if tails and not any(pathsem.strip_refs(v) in upd for v in tails[0]['vals']):
             once('S3', 'updated-map-not-forwarded', tails[0]['ln'], 'the forked path does not carry the updated claim map')
     r.inst(key + ': %d returning paths' % len(rets))
     r.inst(key + ': flags consistent on %d paths' % len(rets))
@@ -443,7 +456,19 @@ def s3_query_archetype_identifiers(prog):
         direct = [e for e in p.events if (e['k'] == 'call' and _is_claim_map_call(e) and e['name'] in INSERTERS + ('entry', 'get_mut', 'remove', 'clear', 'retain')
                                             and pathsem.strip_refs(e['vals'][0]) in (param, ('d', param)))]
         commits = [e for e in p.events if e['k'] == 'store' and e['loc'] == ('d', param)]
-        if p.ret == pathsem.TRUE:
+        # the verdict is a bool next to a `&mut` map, or a Result carrying the map to go on with: Ok(updated) / Err(original)
+        verdict = p.ret
+        if isinstance(verdict, tuple) and verdict[0] == 'agg' and verdict[1] == 'core::result::Result' and len(verdict[4]) == 1:
+            payload = pathsem.strip_refs(verdict[4][0])
+            if verdict[2] == 'Ok':
+                verdict = pathsem.TRUE
+                if payload == param or pathsem.mentions(payload, lambda t: t == param):
+                    commits = commits or [{'ln': None}]
+            else:
+                verdict = pathsem.FALSE
+                if payload != param:
+                    once('commit-on-conflict', None, 'on a conflict the caller must get its own claim map back unchanged (got %s)' % pathsem.tstr(payload)[:60])
+        if verdict == pathsem.TRUE:
             n_true += 1
             if failed:
                 once('conflict-not-refused', failed[0]['ln'], 'a failed try_merge (conflicting claims) does not make the function return false')
@@ -454,7 +479,7 @@ def s3_query_archetype_identifiers(prog):
                 once('true-before-all-checked', None, 'returns true before every claimed archetype has been checked')
             if not commits and not direct:
                 once('no-commit', None, 'a path returns true without recording the task\'s claims in the caller\'s map')
-        elif p.ret == pathsem.FALSE:
+        elif verdict == pathsem.FALSE:
             n_false += 1
             if commits or direct:
                 once('commit-on-conflict', (commits or direct)[0]['ln'], 'the caller\'s claim map is updated on a path that found a conflict')
